@@ -263,8 +263,8 @@ Definition digit_val (c : Z) : Z :=
 Definition undigits (b : Z) (ds : list Z) : Z := fold_left (fun acc d => acc * b + d) ds 0.
 Definition read_int (b : Z) (txt : list Z) : Z :=
   match txt with
-  | 45 :: r => - undigits b (map digit_val r)
-  | _ => undigits b (map digit_val txt)
+  | c :: r => if c =? 45 then - undigits b (map digit_val r) else undigits b (map digit_val txt)
+  | [] => 0
   end.
 
 (* ------------------------------------------------------------------ *)
